@@ -1,5 +1,6 @@
 import UberjobModel.Lemmas.EngineInv2
 import UberjobModel.Lemmas.EngineExamples
+import UberjobModel.Lemmas.Retry
 /-!
 # C10 — run limits: max_workers and max_errors (engine part)
 
@@ -61,5 +62,52 @@ theorem C10_parallel_begin {g : Graph} {cfg : Cfg} {s : St} {w x : Nat}
   simp [setW, hlt]
 
 example : (run? diamond ⟨2, some 0⟩ (init diamond) (diamondRun.take 12)).map runningCount = some 2 := by decide
+
+/-! ## retry = n  (`create_retry`, with loop bound, last-attempt test and exception class regenerated from retry.py)
+
+`script j` is what the j-th call of the decorated function does.  The same wrapper is applied to call functions, to
+store `read`/`write` (they are calls of the physical plan) and to `get_modified_time` (facts in `Gen.Retry.facts`). -/
+
+open Uberjob.Retry in
+/-- At most `n` attempts, at least one, stopping at the first success (or first non-`Exception`); the result is that
+    attempt's result. -/
+theorem C10_retry_attempts {V E : Type} (n : Nat) (hn : 1 ≤ n) (script : Nat → Outcome V E) :
+    ∃ run, retryLoop (n : Int) script = some run ∧ run.attempts = min n (firstStop script n 0 + 1)
+      ∧ run.res = final (script (min (n - 1) (firstStop script n 0))) :=
+  retry_attempts n hn script
+
+open Uberjob.Retry in
+theorem C10_retry_bounds {V E : Type} (n : Nat) (hn : 1 ≤ n) (script : Nat → Outcome V E) :
+    ∃ run, retryLoop (n : Int) script = some run ∧ 1 ≤ run.attempts ∧ run.attempts ≤ n ∧ run.res ≠ .returnedNone :=
+  retry_attempts_le n hn script
+
+open Uberjob.Retry in
+/-- An eventual success (after `m < n` failing attempts) is a success: the value of that attempt is returned. -/
+theorem C10_retry_first_success {V E : Type} (n : Nat) (script : Nat → Outcome V E) (m : Nat) (v : V) (hm : m < n)
+    (hpre : ∀ j, j < m → ∃ e, script j = Outcome.exc e) (hok : script m = .ok v) :
+    retryLoop (n : Int) script = some ⟨.returned v, m + 1⟩ :=
+  retry_first_success n script m v hm hpre hok
+
+open Uberjob.Retry in
+/-- When all `n` attempts fail, the exception reported is the one of the LAST attempt. -/
+theorem C10_retry_last_exception {V E : Type} (n : Nat) (hn : 1 ≤ n) (script : Nat → Outcome V E) (e : E)
+    (hall : ∀ j, j < n → ∃ e', script j = Outcome.exc e') (hlast : script (n - 1) = Outcome.exc e) :
+    retryLoop (n : Int) script = some ⟨.raised .exc e, n⟩ :=
+  retry_last_exception n hn script e hall hlast
+
+open Uberjob.Retry in
+/-- Only `Exception`s are retried: a `BaseException` (KeyboardInterrupt, SystemExit) surfaces at once. -/
+theorem C10_retry_base_exception {V E : Type} (n : Nat) (script : Nat → Outcome V E) (m : Nat) (e : E)
+    (hm : m < n) (hpre : ∀ j, j < m → ∃ e', script j = Outcome.exc e') (hb : script m = Outcome.baseExc e) :
+    retryLoop (n : Int) script = some ⟨.raised .baseExc e, m + 1⟩ :=
+  retry_base_exception_not_retried n script m e hm hpre hb
+
+open Uberjob.Retry in
+theorem C10_retry_one_is_identity {V E : Type} (script : Nat → Outcome V E) :
+    createRetry 1 = .identity ∧ retryLoop 1 script = some ⟨final (script 0), 1⟩ :=
+  retry_one_is_identity script
+
+/-- `retry` reaches call functions, store reads/writes and modified-time queries; custom decorators pass through. -/
+theorem C10_retry_sites : Uberjob.Gen.Retry.facts.faithful = true := Uberjob.Retry.facts_faithful
 
 end Uberjob.Engine
